@@ -43,11 +43,17 @@ func (m *message) Blocks() iter.Seq2[ipld.Block, error] {
 }
 
 func (m *message) Invocations() []ipld.Link {
+	if m.data == nil {
+		return nil
+	}
 	return m.data.Execute
 }
 
 func (m *message) Receipts() []ipld.Link {
 	var rcpts []ipld.Link
+	if m.data == nil || m.data.Report == nil {
+		return rcpts
+	}
 	for _, k := range m.data.Report.Keys {
 		l, ok := m.data.Report.Values[k]
 		if ok {
@@ -60,6 +66,9 @@ func (m *message) Receipts() []ipld.Link {
 func (m *message) Get(link ipld.Link) (ipld.Link, bool) {
 	var rcpt ipld.Link
 	found := false
+	if m.data == nil || m.data.Report == nil {
+		return nil, false
+	}
 	for _, k := range m.data.Report.Keys {
 		if k == link.String() {
 			rcpt = m.data.Report.Values[k]
